@@ -2009,7 +2009,7 @@ func main() {
 		return
 	}
 
-	nPure, nLevels, nHist, histOps := 5000, 900, 24, 45
+	nPure, nLevels, nHist, histOps := 4000, 700, 22, 45
 	if o.Tier == "thorough" {
 		nPure, nLevels, nHist, histOps = 60000, 8000, 300, 70
 	}
